@@ -184,6 +184,12 @@ def explore(ctx):
     n = ctx.n(120, 2000)
     jobs = core.gen_jobs(ctx, n, "c02", dict(max_depth=depth, unions="any"), make_ops(depth))
     jobs.append(adversarial_text_job())
+    # the minimised past misses of the round trip (corpus/C01: Literal members that are == across classes, ...) through the codec too
+    for cj in core.corpus_jobs("C01"):
+        ops = [{"op": "codec", "ty": o["ty"], "val": o["val"]} for o in cj["ops"]
+               if o.get("op") == "rt" and str_keyed(o["ty"], cj["prog"]) and small_ints(o["val"])]
+        if ops:
+            jobs.append({"prog": cj["prog"], "ops": ops})
     real, model = core.run_jobs(jobs)
     res.programs = len(jobs)
     for job, op, r_, m_ in core.iter_results(jobs, real, model):
@@ -204,6 +210,9 @@ def explore(ctx):
                     bad.append(f"[{cname}] Codec.encode raised {c['codec_encode']} although marshal succeeded")
                 elif "ok" in c.get("api_encode", {}):
                     bad.append(f"[{cname}] typelib.encode succeeded where Codec.encode raised")
+                elif not is_bytes and type_optional_only(op["ty"], job["prog"]) and not enum_ambiguous(job["prog"]):
+                    # every entry point rejects a VALID value of a union-free type: nothing to decode, the round trip fails
+                    bad.append(f"[{cname}] encode raised {c['codec_encode']} for a valid value: decode(encode(v)) != v")
                 continue
             for k in ("api_encode_same", "compose_encode_same"):
                 if c[k].get("ok") is not True and not (is_bytes and k == "compose_encode_same"):
